@@ -276,7 +276,6 @@ Definition deviation_witnesses : list (string * list value) := [
   ("~{~A~^,~}", [ints [1; 2; 3]]);                                   (* caret *)
   ("~A~^ more", [VInt 1]);
   ("~2R", [VInt 5]);                                                  (* radix ignored *)
-  ("~@R", [VInt 0]);                                                  (* Roman zero *)
   ("~D", [VStr (tx "abc")]);                                          (* non-integer printed with escapes *)
   ("~10,'*D", [VInt 42]);                                             (* quoted parameter that is a directive character *)
   ("~&x", []);                                                        (* fresh line at the start of the output *)
@@ -393,12 +392,12 @@ Proof. split; vm_compute; reflexivity. Qed.
 (* ---- the two sites of ~R without parameters, for all integers: the readings coincide (no taint is added) on every
    integer but 0 for the Roman forms and on every integer for the English forms --------------------------------------- *)
 From C15 Require Import RomanProofs.
-Theorem roman_site_coincides_all : forall colon c z, z <> 0%Z -> arg_at c = Some (VInt z) ->
+Theorem roman_site_coincides_all : forall colon c z, arg_at c = Some (VInt z) ->
   dir_radix true src_tables colon true [] c = dir_radix false src_tables colon true [] c.
 Proof.
-  intros colon c z Hz Ha. unfold dir_radix. rewrite Ha.
+  intros colon c z Ha. unfold dir_radix. rewrite Ha.
   destruct (nargs c <=? c_apos c)%Z; [reflexivity|].
-  rewrite (go_roman_all_integers colon z Hz).
+  rewrite (go_roman_all_integers colon z).
   destruct (std_roman colon z) as [t|]; unfold pick; cbn [opt_text_eqb]; rewrite ?text_eqb_refl; reflexivity.
 Qed.
 Theorem english_site_coincides : forall colon c z, arg_at c = Some (VInt z) ->
